@@ -16,34 +16,40 @@ Section CanTable.
   Hypothesis Hse : forall kbs, e_sigok e kbs [] = false.
   Hypothesis Hksort : forall ks, length (ksort ke ks) = length ks.
   Variable W : wit.
-  Hypothesis HU : uniq_material e ke W.
+  (* the keys [K] and hash images [P] for which the material of [W] has to be unambiguous *)
+  Variable K : key -> Prop.
+  Variable P : bytes -> Prop.
+  Hypothesis HKs : forall ks, (forall k, In k ks -> K k) -> forall k, In k (ksort ke ks) -> K k.
+  Hypothesis HU : uniq_material_on e ke K P W.
+  Definition covers (m : ms) : Prop :=
+    (forall k, In k (dn_keys m) -> K k) /\ (forall h, In h (dn_imgs m) -> P h).
   Notation AW := (assets_of e ke W).
   Notation RC := (Rg e ke true).
 
   Definition dn_tbl (m : ms) (s : bool) : list wit := if s then all_sat ke AW m else all_dsat ke AW m.
 
-  Lemma find_sig k sg : In sg W -> sg <> [] -> e_sigok e (kb ke k) sg = true -> a_sig AW k = Some sg.
+  Lemma find_sig k sg : K k -> In sg W -> sg <> [] -> e_sigok e (kb ke k) sg = true -> a_sig AW k = Some sg.
   Proof.
-    intros Hin Hne Hok. cbn [assets_of a_sig]. unfold wfind_sig.
+    intros HK Hin Hne Hok. cbn [assets_of a_sig]. unfold wfind_sig.
     destruct (find _ W) as [y|] eqn:Ef.
     - apply find_some in Ef. destruct Ef as [Hy Hp]. apply andb_prop in Hp. destruct Hp as [Hn Ho].
-      f_equal. destruct HU as [Hu _]. apply (Hu k y sg); auto. intros ->. discriminate.
+      f_equal. destruct HU as [Hu _]. apply (Hu k HK y sg); auto. intros ->. discriminate.
     - exfalso. apply (find_none _ _ Ef) in Hin. destruct sg; [congruence|]. cbn [dn_nonnil andb] in Hin. congruence.
   Qed.
 
-  Lemma find_pre hf h x : uniq_pre hf W -> In x W -> blen x = 32%N -> hf x = h -> wfind_pre hf W h = Some x.
+  Lemma find_pre hf h x : uniq_pre_on P hf W -> P h -> In x W -> blen x = 32%N -> hf x = h -> wfind_pre hf W h = Some x.
   Proof.
-    intros Hu Hin Hl Hh. unfold wfind_pre. destruct (find _ W) as [y|] eqn:Ef.
+    intros Hu HP Hin Hl Hh. unfold wfind_pre. destruct (find _ W) as [y|] eqn:Ef.
     - apply find_some in Ef. destruct Ef as [Hy Hp]. apply andb_prop in Hp. destruct Hp as [Hn Ho].
-      apply N.eqb_eq in Hn. apply bytes_eqb_eq in Ho. f_equal. apply Hu; auto. congruence.
+      apply N.eqb_eq in Hn. apply bytes_eqb_eq in Ho. f_equal. apply (Hu h HP); auto.
     - exfalso. apply (find_none _ _ Ef) in Hin. rewrite Hl, Hh, bytes_eqb_refl in Hin. discriminate.
   Qed.
 
-  Lemma can_hash hf look h s w v : uniq_pre hf W -> (forall h', look h' = wfind_pre hf W h') ->
+  Lemma can_hash hf look h s w v : uniq_pre_on P hf W -> P h -> (forall h', look h' = wfind_pre hf W h') ->
     incl w W -> Rhash true hf h s w v -> In w (if s then fst (hash_sd look h) else snd (hash_sd look h)).
   Proof.
-    intros Hu Hlook Hin [x [-> [Hl [_ [Hh Hc]]]]]. unfold hash_sd. destruct s; cbn [fst snd].
-    - rewrite Hlook, (find_pre hf h x Hu (Hin x (or_introl eq_refl)) Hl Hh). left. reflexivity.
+    intros Hu HP Hlook Hin [x [-> [Hl [_ [Hh Hc]]]]]. unfold hash_sd. destruct s; cbn [fst snd].
+    - rewrite Hlook, (find_pre hf h x Hu HP (Hin x (or_introl eq_refl)) Hl Hh). left. reflexivity.
     - rewrite (Hc eq_refl eq_refl). left. reflexivity.
   Qed.
 
@@ -55,11 +61,11 @@ Section CanTable.
   Proof. intros H x Hx. apply H. right. exact Hx. Qed.
 
   (* ---------- multi: CHECKMULTISIG's matching yields an in-order choice of keys ---------- *)
-  Lemma SubV_nil_r K : SubV e K [].
-  Proof. induction K; constructor; assumption. Qed.
-  Lemma mm_sub_inv K : forall S, multisig_match e K S = true -> SubV e K S.
+  Lemma SubV_nil_r Ks : SubV e Ks [].
+  Proof. induction Ks; constructor; assumption. Qed.
+  Lemma mm_sub_inv Ks : forall S, multisig_match e Ks S = true -> SubV e Ks S.
   Proof.
-    induction K as [|kbs K IH]; intros S H.
+    induction Ks as [|kbs Ks IH]; intros S H.
     - destruct S; [constructor | discriminate].
     - destruct S as [|s S']; [apply SubV_nil_r|]. rewrite mm_unfold in H.
       destruct (Nat.ltb _ _); [discriminate|]. destruct (e_sigok e kbs s) eqn:Es.
@@ -67,13 +73,15 @@ Section CanTable.
       + apply SV_skip; auto.
   Qed.
 
-  Lemma sub_pick ks : forall S, SubV e (map (kb ke) ks) S -> incl S W -> In S (pick_sigs AW (length S) ks).
+  Lemma sub_pick ks : (forall k, In k ks -> K k) ->
+    forall S, SubV e (map (kb ke) ks) S -> incl S W -> In S (pick_sigs AW (length S) ks).
   Proof.
-    induction ks as [|key r IH]; intros S H Hin; cbn [map] in H.
+    induction ks as [|key r IH]; intros HK S H Hin; cbn [map] in H;
+      [|assert (HKr : forall k, In k r -> K k) by (intros q Hq; apply HK; right; exact Hq); specialize (IH HKr)].
     - inversion H; subst. left. reflexivity.
     - cbn [pick_sigs]. apply in_or_app. inversion H; subst.
       + left. cbn [length]. assert (Hne : s <> []) by (intros ->; rewrite Hse in *; discriminate).
-        rewrite (find_sig key s (Hin s (or_introl eq_refl)) Hne) by assumption.
+        rewrite (find_sig key s (HK key (or_introl eq_refl)) (Hin s (or_introl eq_refl)) Hne) by assumption.
         apply in_map. apply IH; [assumption | eapply incl_tl'; eassumption].
       + right. apply IH; assumption.
   Qed.
@@ -81,26 +89,27 @@ Section CanTable.
   Lemma repeat_snoc {X} (x : X) n : repeat x n ++ [x] = repeat x (S n).
   Proof. induction n as [|n IH]; [reflexivity|]. cbn [repeat app]. rewrite IH. reflexivity. Qed.
 
-  Lemma can_cms k ks s w v : incl w W -> Rcms e k (map (kb ke) ks) s w v ->
+  Lemma can_cms k ks s w v : (forall q, In q ks -> K q) -> incl w W -> Rcms e k (map (kb ke) ks) s w v ->
     In w (if s then map (fun sigs => rev sigs ++ [[]]) (pick_sigs AW (N.to_nat k) ks) else [repeat [] (S (N.to_nat k))]).
   Proof.
-    intros Hin [_ [sigs [-> [Hl [_ Hm]]]]]. destruct s.
+    intros HK Hin [_ [sigs [-> [Hl [_ Hm]]]]]. destruct s.
     - apply mm_sub_inv, SubV_rev in Hm. rewrite rev_involutive in Hm.
       apply in_map_iff. exists (rev sigs). split; [rewrite rev_involutive; reflexivity|].
-      rewrite <- Hl, <- (rev_length sigs). apply sub_pick; [exact Hm|].
+      rewrite <- Hl, <- (rev_length sigs). apply sub_pick; [exact HK | exact Hm|].
       intros x Hx. apply Hin, in_or_app. left. apply in_rev. exact Hx.
     - destruct Hm as [_ ->]. left. symmetry. apply repeat_snoc.
   Qed.
 
   (* ---------- multi_a ---------- *)
-  Lemma can_csa ks : forall w j, incl w W -> Rcsa e ke ks w j -> In w (pick_sigs_a AW j ks).
+  Lemma can_csa ks : (forall q, In q ks -> K q) -> forall w j, incl w W -> Rcsa e ke ks w j -> In w (pick_sigs_a AW j ks).
   Proof.
-    induction ks as [|key r IH]; intros w j Hin H; cbn [Rcsa] in H.
+    induction ks as [|key r IH]; intros HK w j Hin H; cbn [Rcsa] in H;
+      [|assert (HKr : forall q, In q r -> K q) by (intros q Hq; apply HK; right; exact Hq); specialize (IH HKr)].
     - destruct H as [-> ->]. left. reflexivity.
     - destruct H as [sg [w' [-> [_ H]]]]. cbn [pick_sigs_a]. apply in_or_app.
       destruct H as [[-> H]|[Hne [Hok [j' [-> H]]]]].
       + right. apply in_map. apply IH; [eapply incl_tl'; eassumption | exact H].
-      + left. rewrite (find_sig key sg (Hin sg (or_introl eq_refl)) Hne Hok).
+      + left. rewrite (find_sig key sg (HK key (or_introl eq_refl)) (Hin sg (or_introl eq_refl)) Hne Hok).
         apply in_map. apply IH; [eapply incl_tl'; eassumption | exact H].
   Qed.
   Lemma csa_zero ks : forall w, Rcsa e ke ks w 0 -> w = repeat [] (length ks).
@@ -110,11 +119,11 @@ Section CanTable.
     - destruct H as [sg [w' [-> [_ [[-> H]|[_ [_ [j' [Hj _]]]]]]]]]; [|discriminate].
       cbn [length repeat]. f_equal. apply IH, H.
   Qed.
-  Lemma can_multi_a k ks (s : bool) w : incl w W ->
+  Lemma can_multi_a k ks (s : bool) w : (forall q, In q ks -> K q) -> incl w W ->
     (exists j, Rcsa e ke ks w j /\ s = N.eqb (N.of_nat j) k /\ (true = true -> s = false -> j = 0%nat)) ->
     In w (if s then pick_sigs_a AW (N.to_nat k) ks else [repeat [] (length ks)]).
   Proof.
-    intros Hin [j [H [Hs Hc]]]. destruct s.
+    intros HK Hin [j [H [Hs Hc]]]. destruct s.
     - symmetry in Hs. apply N.eqb_eq in Hs. subst k. rewrite Nat2N.id. apply can_csa; assumption.
     - rewrite (Hc eq_refl eq_refl) in H. left. symmetry. apply csa_zero, H.
   Qed.
@@ -138,25 +147,31 @@ Section CanTable.
 
   Ltac cross_in a b := apply in_cross; exists a, b; split; [|split; [|reflexivity]].
 
-  Theorem can_table : forall m s w v, incl w W -> RC m s w v -> In w (dn_tbl m s).
+  Ltac cv := match goal with HC : covers _ |- covers _ =>
+    let C1 := fresh in let C2 := fresh in destruct HC as [C1 C2]; split; intros q Hq; [apply C1 | apply C2];
+    cbn [dn_keys dn_imgs]; rewrite ?in_app_iff; auto end.
+
+  Theorem can_table : forall m, covers m -> forall s w v, incl w W -> RC m s w v -> In w (dn_tbl m s).
   Proof.
     destruct HU as [_ [Hu1 [Hu2 [Hu3 Hu4]]]].
-    induction m using ms_ind'; intros s w v Hin HR; cbn [Rg] in HR; unfold dn_tbl.
+    induction m using ms_ind'; intros HC s w v Hin HR; cbn [Rg] in HR; unfold dn_tbl;
+      repeat match goal with IH : covers ?x -> _ |- _ =>
+        let Hc := fresh in assert (Hc : covers x) by cv; specialize (IH Hc); clear Hc end.
     - destruct HR as [-> [-> _]]. left. reflexivity.
     - destruct HR as [-> [-> _]]. left. reflexivity.
     - (* pk_k *) destruct HR as [sg [-> [-> [_ Hs]]]]. cbn [all_sat all_dsat sd fst snd]. destruct s.
-      + destruct Hs as [Hne Hok]. rewrite (find_sig k sg (Hin sg (or_introl eq_refl)) Hne Hok). left. reflexivity.
+      + destruct Hs as [Hne Hok]. rewrite (find_sig k sg (proj1 HC k (or_introl eq_refl)) (Hin sg (or_introl eq_refl)) Hne Hok). left. reflexivity.
       + subst sg. left. reflexivity.
     - (* pk_h *) destruct HR as [sg [-> [_ [[_ Hs] Hc]]]]. rewrite (Hc eq_refl) in *. cbn [all_sat all_dsat sd fst snd]. destruct s.
-      + destruct Hs as [Hne Hok]. rewrite (find_sig k sg (Hin sg (or_intror (or_introl eq_refl))) Hne Hok). left. reflexivity.
+      + destruct Hs as [Hne Hok]. rewrite (find_sig k sg (proj1 HC k (or_introl eq_refl)) (Hin sg (or_intror (or_introl eq_refl))) Hne Hok). left. reflexivity.
       + subst sg. left. reflexivity.
     - destruct HR as [HF _]. discriminate.
     - (* after *) destruct HR as [-> [-> [_ Hc]]]. cbn [all_sat sd fst assets_of a_after]. rewrite Hc. left. reflexivity.
     - destruct HR as [-> [-> [_ Hc]]]. cbn [all_sat sd fst assets_of a_older]. rewrite Hc. left. reflexivity.
-    - pose proof (can_hash _ (a_sha256 AW) h s w v Hu1 (fun _ => eq_refl) Hin HR) as H. destruct s; exact H.
-    - pose proof (can_hash _ (a_hash256 AW) h s w v Hu2 (fun _ => eq_refl) Hin HR) as H. destruct s; exact H.
-    - pose proof (can_hash _ (a_ripemd160 AW) h s w v Hu3 (fun _ => eq_refl) Hin HR) as H. destruct s; exact H.
-    - pose proof (can_hash _ (a_hash160 AW) h s w v Hu4 (fun _ => eq_refl) Hin HR) as H. destruct s; exact H.
+    - pose proof (can_hash _ (a_sha256 AW) h s w v Hu1 (proj2 HC h (or_introl eq_refl)) (fun _ => eq_refl) Hin HR) as H. destruct s; exact H.
+    - pose proof (can_hash _ (a_hash256 AW) h s w v Hu2 (proj2 HC h (or_introl eq_refl)) (fun _ => eq_refl) Hin HR) as H. destruct s; exact H.
+    - pose proof (can_hash _ (a_ripemd160 AW) h s w v Hu3 (proj2 HC h (or_introl eq_refl)) (fun _ => eq_refl) Hin HR) as H. destruct s; exact H.
+    - pose proof (can_hash _ (a_hash160 AW) h s w v Hu4 (proj2 HC h (or_introl eq_refl)) (fun _ => eq_refl) Hin HR) as H. destruct s; exact H.
     - (* a: *) exact (IHm s w v Hin HR).
     - (* s: *) exact (IHm s w v Hin HR).
     - (* c: *) destruct HR as [_ [key HR]]. exact (IHm s w key Hin HR).
@@ -208,13 +223,16 @@ Section CanTable.
       + pose proof (IHm2 s w' v (incl_tl' _ _ _ Hin) HR) as H1. unfold dn_tbl in H1.
         destruct s; cbn [fst snd]; apply in_or_app; right; apply in_map; exact H1.
     - (* thresh *) destruct HR as [_ [j [HT [Hs Hc]]]]. unfold all_sat, all_dsat. rewrite sd_thresh.
-      pose proof (can_thr xs H w j Hin HT) as Hin'. destruct s; cbn [fst snd].
+      assert (H' : Forall (fun x => forall s w v, incl w W -> RC x s w v -> In w (dn_tbl x s)) xs).
+      { rewrite Forall_forall in H |- *. intros x Hx. apply (H x Hx). destruct HC as [C1 C2].
+        split; intros q Hq; [apply C1 | apply C2]; cbn [dn_keys dn_imgs]; apply in_flat_map; exists x; auto. }
+      pose proof (can_thr xs H' w j Hin HT) as Hin'. destruct s; cbn [fst snd].
       + symmetry in Hs. apply N.eqb_eq in Hs. subst k. rewrite Nat2N.id. exact Hin'.
       + rewrite (Hc eq_refl eq_refl) in Hin'. exact Hin'.
-    - (* multi *) pose proof (can_cms k ks s w v Hin HR) as Hc. destruct s; exact Hc.
-    - (* sortedmulti *) pose proof (can_cms k (ksort ke ks) s w v Hin HR) as Hc. destruct s; exact Hc.
-    - (* multi_a *) destruct HR as [_ HR]. pose proof (can_multi_a k ks s w Hin HR) as Hc. destruct s; exact Hc.
-    - (* sortedmulti_a *) destruct HR as [_ HR]. pose proof (can_multi_a k (ksort ke ks) s w Hin HR) as Hc.
+    - (* multi *) pose proof (can_cms k ks s w v (proj1 HC) Hin HR) as Hc. destruct s; exact Hc.
+    - (* sortedmulti *) pose proof (can_cms k (ksort ke ks) s w v (HKs ks (proj1 HC)) Hin HR) as Hc. destruct s; exact Hc.
+    - (* multi_a *) destruct HR as [_ HR]. pose proof (can_multi_a k ks s w (proj1 HC) Hin HR) as Hc. destruct s; exact Hc.
+    - (* sortedmulti_a *) destruct HR as [_ HR]. pose proof (can_multi_a k (ksort ke ks) s w (HKs ks (proj1 HC)) Hin HR) as Hc.
       rewrite Hksort in Hc. destruct s; exact Hc.
   Qed.
 End CanTable.
@@ -249,7 +267,25 @@ Theorem Rcan_in_table (e : env) (ke : keyenv) (m : ms) (s : bool) (w : wit) (v :
   uniq_material e ke w -> Rcan e ke m s w v ->
   In w (if s then all_sat ke (assets_of e ke w) m else all_dsat ke (assets_of e ke w) m).
 Proof.
-  intros Hse Hks HU HR. exact (can_table e ke Hse Hks w HU m s w v (fun x Hx => Hx) HR).
+  intros Hse Hks HU HR.
+  refine (can_table e ke Hse Hks w (fun _ => True) (fun _ => True) (fun _ _ _ _ => I) _ m (conj (fun _ _ => I) (fun _ _ => I)) s w v (fun x Hx => Hx) HR).
+  destruct HU as [U0 [U1 [U2 [U3 U4]]]].
+  split; [intros k _; apply U0|].
+  repeat split; intros h _ x1 x2 I1 I2 L1 L2 E1 E2; [apply U1 | apply U2 | apply U3 | apply U4]; auto; congruence.
+Qed.
+
+(* (b), restricted: only the keys and hash images OF [m] have to be unambiguous in the witness *)
+Theorem Rcan_in_table_of (e : env) (ke : keyenv) (m : ms) (s : bool) (w : wit) (v : bytes) :
+  (forall kbs, e_sigok e kbs [] = false) -> (forall ks, length (ksort ke ks) = length ks) ->
+  (forall ks k, In k (ksort ke ks) -> In k ks) ->
+  uniq_material_of e ke m w -> Rcan e ke m s w v ->
+  In w (if s then all_sat ke (assets_of e ke w) m else all_dsat ke (assets_of e ke w) m).
+Proof.
+  intros Hse Hks Hkin HU HR.
+  refine (can_table e ke Hse Hks w (fun k => In k (dn_keys m)) (fun h => In h (dn_imgs m)) _ HU m
+            (conj (fun _ H => H) (fun _ H => H)) s w v (fun x Hx => Hx) HR).
+  (* keys of sortedmulti / sortedmulti_a: a sub-list [ks] of the keys of m, sorted *)
+  intros ks Hall k Hk. apply Hall, Hkin, Hk.
 Qed.
 
 (* ================= (a) table entry => relation ================= *)
